@@ -108,6 +108,10 @@ func (t *Tracer) get(tx *am.Transition) *TxRec {
 	r, ok := t.byId[tx.Id]
 	if !ok {
 		r = &TxRec{TxId: tx.Id, Seq: len(t.Txs)}
+		if tx.Mutation != nil {
+			r.Uid = uidOf(tx.Mutation.Args)
+			r.IsAuto = tx.Mutation.IsAuto
+		}
 		t.byId[tx.Id] = r
 		t.Txs = append(t.Txs, r)
 	}
@@ -347,3 +351,15 @@ func SameSet(a, b []string) bool {
 }
 
 func Has(l []string, s string) bool { return slices.Contains(l, s) }
+
+// Started reports whether a transition carrying uid has been initiated.
+func (t *Tracer) Started(uid string) bool {
+	t.Mx.Lock()
+	defer t.Mx.Unlock()
+	for i := len(t.Txs) - 1; i >= 0; i-- {
+		if t.Txs[i].Uid == uid {
+			return true
+		}
+	}
+	return false
+}
